@@ -984,7 +984,11 @@ func checkIPv6(data string) bool {
 	}
 	fragments := std.StringSplit(data, ":")
 	l = len(fragments)
-	if l < 3 || 8 < l {
+	if l < 3 || 9 < l {
+		return false
+	}
+	// Nine fragments are valid only for "::" at an edge standing for one group.
+	if l == 9 && len(fragments[0])+len(fragments[1]) != 0 && len(fragments[7])+len(fragments[8]) != 0 {
 		return false
 	}
 	var hasEmpty bool
